@@ -32,6 +32,9 @@ pub struct CircuitRunner<'a, F> {
     non_primitive_op_index_by_id: Vec<Option<usize>>,
     /// Operation-specific execution state (e.g., Poseidon chaining, row records).
     op_states: OpStateMap,
+    /// Verification hook: instance id (0 = this runner is not traced).
+    #[cfg(p3r_verif)]
+    verif_id: u64,
 }
 
 impl<'a, F: Field> CircuitRunner<'a, F> {
@@ -69,6 +72,8 @@ impl<'a, F: Field> CircuitRunner<'a, F> {
         non_primitive_op_private_data.resize_with(non_primitive_op_count, || None);
         let witness_rewrite = circuit.witness_rewrite.clone();
         let op_states = BTreeMap::new();
+        #[cfg(p3r_verif)]
+        let verif_id = verif::new_runner(circuit.witness_count as usize, circuit.ops.len());
         Self {
             circuit,
             witness,
@@ -76,6 +81,8 @@ impl<'a, F: Field> CircuitRunner<'a, F> {
             non_primitive_op_private_data,
             non_primitive_op_index_by_id,
             op_states,
+            #[cfg(p3r_verif)]
+            verif_id,
         }
     }
 
@@ -193,6 +200,8 @@ impl<'a, F: Field> CircuitRunner<'a, F> {
     /// Run the circuit and generate traces
     #[instrument(skip_all)]
     pub fn run(mut self) -> Result<Traces<F>, CircuitError> {
+        #[cfg(p3r_verif)]
+        let mut verif_end = verif::EndGuard::new(self.verif_id);
         let alu_records = self.execute_all()?;
 
         if let Some(rewrite) = self.witness_rewrite.take() {
@@ -239,6 +248,8 @@ impl<'a, F: Field> CircuitRunner<'a, F> {
         }
         _scope.exit();
 
+        #[cfg(p3r_verif)]
+        verif_end.ok();
         Ok(Traces {
             witness_trace,
             const_trace,
@@ -256,14 +267,23 @@ impl<'a, F: Field> CircuitRunner<'a, F> {
     #[instrument(skip_all, level = "debug")]
     pub fn execute_all(&mut self) -> Result<Vec<AluOpRecord<F>>, CircuitError> {
         let mut alu_records = Vec::with_capacity(self.circuit.ops.len());
+        #[cfg(p3r_verif)]
+        let mut verif_i = 0usize;
 
         for op in &self.circuit.ops {
+            #[cfg(p3r_verif)]
+            {
+                verif::op(self.verif_id, verif_i, op);
+                verif_i += 1;
+            }
             match op {
                 Op::Const { out, val } => {
                     self.set_witness(*out, *val)?;
                 }
                 Op::Public { out, public_pos: _ } => {
                     if self.witness[out.0 as usize].is_none() {
+                        #[cfg(p3r_verif)]
+                        verif::fail(self.verif_id);
                         return Err(CircuitError::PublicInputNotSet { witness_id: *out });
                     }
                 }
@@ -283,7 +303,15 @@ impl<'a, F: Field> CircuitRunner<'a, F> {
                     outputs,
                     executor,
                 } => {
+                    #[cfg(not(p3r_verif))]
                     executor.execute(inputs, outputs, &mut self.witness)?;
+                    #[cfg(p3r_verif)]
+                    {
+                        let pre = verif::snapshot(self.verif_id, &self.witness, outputs.iter());
+                        let res = executor.execute(inputs, outputs, &mut self.witness);
+                        verif::after_exec(self.verif_id, &self.witness, inputs.iter(), &pre, res.is_ok());
+                        res?;
+                    }
                 }
                 Op::NonPrimitiveOpWithExecutor {
                     inputs,
@@ -291,6 +319,8 @@ impl<'a, F: Field> CircuitRunner<'a, F> {
                     executor,
                     op_id,
                 } => {
+                    #[cfg(p3r_verif)]
+                    let pre = verif::snapshot(self.verif_id, &self.witness, outputs.iter().flatten());
                     let mut ctx = ExecutionContext::new(
                         &mut self.witness,
                         &self.non_primitive_op_private_data,
@@ -299,7 +329,14 @@ impl<'a, F: Field> CircuitRunner<'a, F> {
                         &mut self.op_states,
                     );
 
+                    #[cfg(not(p3r_verif))]
                     executor.execute(inputs, outputs, &mut ctx)?;
+                    #[cfg(p3r_verif)]
+                    {
+                        let res = executor.execute(inputs, outputs, &mut ctx);
+                        verif::after_exec(self.verif_id, &self.witness, inputs.iter().flatten(), &pre, res.is_ok());
+                        res?;
+                    }
                 }
             }
         }
@@ -458,6 +495,8 @@ impl<'a, F: Field> CircuitRunner<'a, F> {
     /// Witness value if the slot exists and is set (`None` = unset or out of range).
     #[inline(always)]
     fn witness_value(&self, widx: WitnessId) -> Option<F> {
+        #[cfg(p3r_verif)]
+        verif::get(self.verif_id, widx, self.witness.get(widx.0 as usize).and_then(|o| o.as_ref()));
         self.witness
             .get(widx.0 as usize)
             .and_then(|opt| opt.as_ref().map(Dup::dup))
@@ -474,9 +513,22 @@ impl<'a, F: Field> CircuitRunner<'a, F> {
     #[inline(always)]
     fn set_witness(&mut self, widx: WitnessId, value: F) -> Result<(), CircuitError> {
         if widx.0 as usize >= self.witness.len() {
+            #[cfg(p3r_verif)]
+            verif::set(self.verif_id, widx, &value, "oob");
             return Err(CircuitError::WitnessIdOutOfBounds { witness_id: widx });
         }
 
+        #[cfg(p3r_verif)]
+        verif::set(
+            self.verif_id,
+            widx,
+            &value,
+            match self.witness[widx.0 as usize].as_ref() {
+                None => "new",
+                Some(e) if *e == value => "same",
+                Some(_) => "conflict",
+            },
+        );
         let slot = &mut self.witness[widx.0 as usize];
 
         // Check for conflicting reassignment
@@ -520,6 +572,129 @@ impl<'a, F: Field> CircuitRunner<'a, F> {
     /// Reference to the circuit ops (for benchmarking trace builders after `execute_all`).
     pub fn ops(&self) -> &[Op<F>] {
         &self.circuit.ops
+    }
+}
+
+/// Verification hooks (compiled only with `--cfg p3r_verif`): one NDJSON event per witness access, op start,
+/// executor write and run result of a traced runner (see `crate::verif_trace`). Runners with more witness
+/// slots than `P3R_RUNNER_MAX` (default 300) are not traced. No hook changes behaviour.
+#[cfg(p3r_verif)]
+mod verif {
+    extern crate std;
+
+    use alloc::string::String;
+    use alloc::vec::Vec;
+    use core::fmt::Debug;
+
+    use crate::ops::Op;
+    use crate::types::WitnessId;
+    use crate::verif_trace::{emit, enabled, fresh_id};
+
+    /// Token of a value: the specification needs equality only.
+    fn tok<T: Debug>(v: &T) -> String {
+        let s = std::format!("{v:?}");
+        let mut h: u64 = 0xcbf29ce484222325;
+        for b in s.bytes() {
+            h ^= b as u64;
+            h = h.wrapping_mul(0x100000001b3);
+        }
+        std::format!("t{h:016x}")
+    }
+
+    pub(super) fn new_runner(n: usize, nops: usize) -> u64 {
+        let max = std::env::var("P3R_RUNNER_MAX")
+            .ok()
+            .and_then(|s| s.parse::<usize>().ok())
+            .unwrap_or(300);
+        if !enabled() || n > max {
+            return 0;
+        }
+        let id = fresh_id();
+        emit(&std::format!("\"ev\":\"r_new\",\"rid\":{id},\"n\":{n},\"nops\":{nops}"));
+        id
+    }
+
+    pub(super) fn get<T: Debug>(rid: u64, w: WitnessId, v: Option<&T>) {
+        if rid != 0 {
+            let (hit, t) = v.map_or((false, String::from("U")), |x| (true, tok(x)));
+            emit(&std::format!("\"ev\":\"r_get\",\"rid\":{rid},\"slot\":{},\"hit\":{hit},\"tok\":\"{t}\"", w.0));
+        }
+    }
+
+    pub(super) fn set<T: Debug>(rid: u64, w: WitnessId, v: &T, res: &str) {
+        if rid != 0 {
+            emit(&std::format!("\"ev\":\"r_set\",\"rid\":{rid},\"slot\":{},\"tok\":\"{}\",\"res\":\"{res}\"", w.0, tok(v)));
+        }
+    }
+
+    pub(super) fn op<F>(rid: u64, i: usize, op: &Op<F>) {
+        if rid != 0 {
+            let k = match op {
+                Op::Const { .. } => "Const",
+                Op::Public { .. } => "Public",
+                Op::Alu { .. } => "Alu",
+                Op::Hint { .. } => "Hint",
+                Op::NonPrimitiveOpWithExecutor { .. } => "Npo",
+            };
+            emit(&std::format!("\"ev\":\"r_op\",\"rid\":{rid},\"i\":{i},\"k\":\"{k}\""));
+        }
+    }
+
+    pub(super) fn fail(rid: u64) {
+        if rid != 0 {
+            emit(&std::format!("\"ev\":\"r_fail\",\"rid\":{rid}"));
+        }
+    }
+
+    /// The declared output slots of a hint / non-primitive op that are unset before it runs.
+    pub(super) fn snapshot<'a, T>(rid: u64, witness: &[Option<T>], outputs: impl Iterator<Item = &'a WitnessId>) -> Vec<u32> {
+        if rid == 0 {
+            return Vec::new();
+        }
+        outputs.filter(|w| witness.get(w.0 as usize).is_some_and(|x| x.is_none())).map(|w| w.0).collect()
+    }
+
+    /// After a hint / non-primitive op: its declared inputs with the outcome, then the slots it wrote.
+    pub(super) fn after_exec<'a, T: Debug>(rid: u64, witness: &[Option<T>], inputs: impl Iterator<Item = &'a WitnessId>, pre_unset: &[u32], ok: bool) {
+        if rid == 0 {
+            return;
+        }
+        let slots: Vec<String> = inputs.map(|w| std::format!("{}", w.0)).collect();
+        emit(&std::format!("\"ev\":\"r_inputs\",\"rid\":{rid},\"slots\":[{}],\"ok\":{ok}", slots.join(",")));
+        let mut seen: Vec<u32> = Vec::new();
+        for s in pre_unset {
+            if seen.contains(s) {
+                continue;
+            }
+            seen.push(*s);
+            if let Some(Some(v)) = witness.get(*s as usize) {
+                emit(&std::format!("\"ev\":\"r_ext\",\"rid\":{rid},\"slot\":{s},\"tok\":\"{}\"", tok(v)));
+            }
+        }
+    }
+
+    /// Emits `r_run` when created and `r_end` when `run` returns (on every path).
+    pub(super) struct EndGuard {
+        rid: u64,
+        ok: bool,
+    }
+    impl EndGuard {
+        pub(super) fn new(rid: u64) -> Self {
+            if rid != 0 {
+                emit(&std::format!("\"ev\":\"r_run\",\"rid\":{rid}"));
+            }
+            Self { rid, ok: false }
+        }
+        pub(super) fn ok(&mut self) {
+            self.ok = true;
+        }
+    }
+    impl Drop for EndGuard {
+        fn drop(&mut self) {
+            if self.rid != 0 {
+                emit(&std::format!("\"ev\":\"r_end\",\"rid\":{},\"res\":\"{}\"", self.rid, if self.ok { "ok" } else { "err" }));
+            }
+        }
     }
 }
 
